@@ -608,9 +608,114 @@ class Enumerator:
                 out.append((sf, o))
         return out
 
+    # ---- a for-loop over a call to a generator function of the program: splice the generator's body around the loop body
+    def _generator_of(self, call: ast.expr, st: St):
+        if not isinstance(call, ast.Call) or call.keywords and any(k.arg is None for k in call.keywords):
+            return None
+        fd = None
+        if isinstance(call.func, ast.Name) and st.module is not None:
+            fi = getattr(st.module, "functions", {}).get(call.func.id)
+            fd = fi.node if fi is not None else None
+            skip_self = False
+        elif isinstance(call.func, ast.Attribute) and isinstance(call.func.value, ast.Name) and call.func.value.id == "self" and st.selfcls:
+            fi = self.cfg.program.find_method(st.selfcls, call.func.attr)
+            fd = fi.node if fi is not None else None
+            skip_self = True
+        if fd is None or any(isinstance(a, ast.Starred) for a in call.args):
+            return None
+        own = [n for n in ast.walk(fd) if not (isinstance(n, (ast.FunctionDef, ast.Lambda)) and n is not fd)]
+        ys = [n for n in ast.walk(fd) if isinstance(n, (ast.Yield, ast.YieldFrom))]
+        if not ys or any(isinstance(n, ast.YieldFrom) for n in ys) or any(isinstance(n, ast.Return) for n in ast.walk(fd)):
+            return None
+        stmts_y = {id(n.value) for n in ast.walk(fd) if isinstance(n, ast.Expr) and isinstance(n.value, ast.Yield)}
+        if any(id(y) not in stmts_y for y in ys) or any(y.value is None for y in ys):
+            return None
+        if fd.args.vararg or fd.args.kwarg or any(isinstance(d, ast.Name) and d.id in ("staticmethod", "classmethod", "property") for d in fd.decorator_list) and not skip_self:
+            return None
+        return fd, skip_self
+
+    def _splice_generator(self, s: ast.For, fd: ast.FunctionDef, skip_self: bool):
+        """Statements equivalent to `for <target> in gen(args): <body>` for a generator without return / yield from whose yields
+        are all statements, and a loop body without loop-level break / continue (checked by the caller)."""
+        import copy
+
+        call = s.iter
+        params = [a.arg for a in fd.args.posonlyargs + fd.args.args]
+        if skip_self and params:
+            params = params[1:]
+        defaults = fd.args.defaults
+        allpos = [a.arg for a in fd.args.posonlyargs + fd.args.args]
+        dmap = dict(zip(allpos[len(allpos) - len(defaults) :], defaults))
+        for a, d in zip(fd.args.kwonlyargs, fd.args.kw_defaults):
+            if d is not None:
+                dmap[a.arg] = d
+        bound = {}
+        for p_, a in zip(params, call.args):
+            bound[p_] = a
+        for k in call.keywords:
+            bound[k.arg] = k.value
+        for p_ in params + [a.arg for a in fd.args.kwonlyargs]:
+            if p_ not in bound:
+                if p_ not in dmap:
+                    return None
+                bound[p_] = dmap[p_]
+        locals_ = set(bound) | _assigned_names(fd.body)
+        suffix = f"__g{s.lineno}"
+
+        class R(ast.NodeTransformer):
+            def visit_Name(self, n):
+                if n.id in locals_:
+                    return ast.copy_location(ast.Name(n.id + suffix, n.ctx), n)
+                return n
+
+            def visit_FunctionDef(self, n):
+                return n
+
+            def visit_Lambda(self, n):
+                return n
+
+        body = [R().visit(copy.deepcopy(x)) for x in fd.body]
+        loop_body = s.body
+        target = s.target
+
+        class Y(ast.NodeTransformer):
+            def visit_Expr(self, n):
+                if isinstance(n.value, ast.Yield):
+                    asg = ast.copy_location(ast.Assign([copy.deepcopy(target)], n.value.value), n)
+                    return [asg] + loop_body
+                return n
+
+            def visit_FunctionDef(self, n):
+                return n
+
+        body = [y for x in body for y in (lambda r: r if isinstance(r, list) else [r])(Y().visit(x))]
+        pre = [ast.copy_location(ast.Assign([ast.Name(p_ + suffix, ast.Store())], v), s) for p_, v in bound.items()]
+        out = pre + body
+        for x in out:
+            ast.fix_missing_locations(x)
+        return out
+
     def s_For(self, s: ast.For, st: St):
         out = []
         tag = f"L{s.lineno}"
+        if not s.orelse and st.depth < self.cfg.max_inline_depth:
+            def loop_level_jump(stmts):
+                for x in stmts:
+                    if isinstance(x, (ast.Break, ast.Continue)):
+                        return True
+                    if isinstance(x, (ast.For, ast.While, ast.FunctionDef, ast.ClassDef)):
+                        continue
+                    for fld in ("body", "orelse", "finalbody", "handlers"):
+                        sub = getattr(x, fld, None)
+                        if isinstance(sub, list) and loop_level_jump([h for h in sub if isinstance(h, ast.stmt)] + [y for h in sub if isinstance(h, ast.ExceptHandler) for y in h.body]):
+                            return True
+                return False
+
+            g = self._generator_of(s.iter, st)
+            if g is not None and not loop_level_jump(s.body):
+                spliced = self._splice_generator(s, *g)
+                if spliced is not None:
+                    return self.exec_block(spliced, st)
         for st1, it, exc in self.ev(s.iter, st):
             if exc:
                 out.append((st1, ("raise", exc)))
